@@ -181,8 +181,45 @@ def freeze_schedule(case, tier):
     want = {engine.loose_sig(v) for v in out["viol"]}
     got = {engine.loose_sig(v) for v in out2["viol"]}
     if want and want <= got:
-        return c2, lst
+        c3, lst3 = minimise_schedule(c2, lst, want, tier)
+        return c3, lst3
     return case, None
+
+
+def minimise_schedule(case, lst, want, tier, budget=40):
+    """Shorten the explicit switch list: shortest prefix that still shows the violation (after it the
+    running thread simply runs on), then drop single switches from the tail end."""
+
+    def shows(sw):
+        c = json.loads(json.dumps(case))
+        c["sched"]["explicit"] = sw
+        try:
+            out = engine.run_case(c, tier)
+        except Exception:
+            return False
+        return want <= {engine.loose_sig(v) for v in out["viol"]}
+
+    lo, hi = 1, len(lst)
+    runs = 0
+    while lo < hi and runs < budget:
+        mid = (lo + hi) // 2
+        runs += 1
+        if shows(lst[:mid]):
+            hi = mid
+        else:
+            lo = mid + 1
+    best = lst[:hi] if (hi == len(lst) or shows(lst[:hi])) else lst
+    # pairs of switches (away and back) that are not needed
+    i = len(best) - 2
+    while i >= 1 and runs < budget:
+        cand = best[:i] + best[i + 2:]
+        runs += 1
+        if shows(cand):
+            best = cand
+        i -= 2
+    c = json.loads(json.dumps(case))
+    c["sched"]["explicit"] = best
+    return c, best
 
 
 def run_check(args, plan_items, work, PLAN):
